@@ -47,7 +47,7 @@ def nontrivial(c, o):
     return (c.get("fault"), c.get("position"), o["cites"][0][0])
 
 
-RULE = ("single-fault programs: 31 fault classes x 12 construct positions (as C09) printed under random layouts — random indentation, tabs, blank lines, comment lines, line breaks in the middle of constructs (60 % of the texts), the faulty arithmetic inside brackets (40 %), 0-4 filler statements before the fault, 0-2 other rules "
+RULE = ("single-fault programs: 31 fault classes x 21 construct positions (as C09, incl. conc blocks nested in for / if / else) printed under random layouts — random indentation, tabs, blank lines, comment lines, line breaks in the middle of constructs (60 % of the texts), the faulty arithmetic inside brackets (40 %), 0-4 filler statements before the fault, 0-2 other rules "
         "before the faulty rule in the same text — so that the faulty construct lands on an arbitrary line; compared: every (line, column) cited by the error text (regex `line N, column M`) with the citation list of the model, whose node "
         "positions are those the printer assigned to first tokens, and every node position in the listener-built tree with the printer's; distinct non-trivial = distinct (fault class, position, cited line) with at least one citation")
 
